@@ -176,6 +176,7 @@ def run(verbose=False, seed=7, per_fn=40):
                     expected = ('raise', type(ex).__name__)
                 res['inputs'] += 1
                 feasible = 0
+                undecided = 0
                 bad = None
                 for kind, hyps, out, env in rep.outcomes:
                     s = z3.Solver()
@@ -188,7 +189,8 @@ def run(verbose=False, seed=7, per_fn=40):
                     if r == z3.unsat:
                         continue
                     if r != z3.sat:
-                        continue           # undecided feasibility: cannot blame the engine
+                        undecided += 1     # undecided feasibility: cannot blame the engine
+                        continue
                     feasible += 1
                     if kind != expected[0]:
                         bad = f'path exits {kind}:{out if kind == "raise" else ""} but CPython gives {expected}'
@@ -227,6 +229,10 @@ def run(verbose=False, seed=7, per_fn=40):
                             feasible = -1
                             res['by_safe_obligation'] = res.get('by_safe_obligation', 0) + 1
                             break
+                if bad is None and feasible == 0 and undecided:
+                    # no path was shown feasible, but for some the solver gave up on the quantified laws: not a verdict
+                    res['undecided_inputs'] = res.get('undecided_inputs', 0) + 1
+                    continue
                 if bad is None and feasible == 0:
                     bad = f'no feasible path for this input (CPython: {expected})'
                 if bad:
